@@ -3,7 +3,7 @@ from fractions import Fraction as Fr
 import itertools
 from symnp import core
 from symnp.core import band, bor, bnot, iff, implies
-from .common import POOL, TINY, slice_points
+from .common import POOL, TINY, slice_points, DIP5
 from .rdpstubs import Stubs, patched, tagged_points, well_formed, STUB_DOC
 
 PROPERTY = 'C04'
@@ -35,6 +35,10 @@ def cases(tier, seed):
                     if q and d == 'perpendicular' and m not in ('smape', 'r2'):
                         continue
                     out.append(dict(layer='L0', nra_at_decide=False, fn='rdp', curve=ci, pos=pos, distance=d, metric=m))
+    for d in DIST:
+        for m in (('smape', 'rpd') if q else MET):
+            for pos in ([[3]] if q else [[1], [2], [3]]):
+                out.append(dict(layer='L0', nra_at_decide=False, fn='rdp', curve='dip5', pos=pos, distance=d, metric=m, t_hint='1/5'))
     for m in MET:
         for n in (3, 4):
             out.append(dict(layer='L0', fn='dispatch', n=n, metric=m))
@@ -59,13 +63,21 @@ def check_partition(h, red, n, metric, t, cost, dist):
     for a, b in zip(red, red[1:]):
         if b - a >= 2:
             h.prove(accept(metric, cost(a, b), t), 'every retained segment with interior points has a cost on the accepting side of t')
-    for i in red[1:-1]:
+    # (b) the output is a recursive RDP partition: every range that contains retained interior indexes is on the rejecting side and is split at a
+    #     retained index that is a farthest interior point of that range (any farthest point on exact ties), recursively
+    S = list(red)
+
+    def valid(l, r):
+        inner = [i for i in S if l < i < r]
+        if not inner:
+            return True       # acceptance of childless ranges is clause (a)
+        d = dist(l, r)
         alts = []
-        for l in range(0, i):
-            for r in range(i + 1, n):
-                d = dist(l, r)
-                alts.append(band(bnot(accept(metric, cost(l, r), t)), *[d[i - l] >= d[j] for j in range(1, r - l) if j != i - l]))
-        h.prove(bor(*alts), 'every retained interior index is a farthest interior point of some index range whose cost is on the rejecting side')
+        for i in inner:
+            far = band(*[d[i - l] >= d[j] for j in range(1, r - l) if j != i - l])
+            alts.append(band(far, valid(l, i), valid(i, r)))
+        return band(bnot(accept(metric, cost(l, r), t)), bor(*alts))
+    h.prove(valid(0, n - 1), 'the output is a recursive RDP partition: every split range is rejected and split at a farthest interior point')
 
 
 def run(h, case):
@@ -101,7 +113,9 @@ def run(h, case):
             red = h.ints(rdp.rdp(pts, t, dist_enum, cost_enum)[0])
             check_partition(h, red, n, metric, t, lambda a, b: st.cost(a, b), lambda l, r: [st.d(l, r, i) for i in range(l, r + 1)])
         return red
-    X, Y = slice_points(h, POOL[case['curve']], case['pos'])
+    X, Y = slice_points(h, DIP5 if case['curve'] == 'dip5' else POOL[case['curve']], case['pos'])
+    if h.sym and case.get('t_hint'):
+        h.c.hints['t'] = Fr(case['t_hint'])
     n = len(X)
     pts = h.argument(h.array([[a, b] for a, b in zip(X, Y)]))
     red = h.ints(rdp.rdp(pts, h.num(t), dist_enum, cost_enum)[0])
@@ -127,7 +141,7 @@ def repair(R, case, inputs):
     import numpy as np
     if case['layer'] != 'L0' or case['fn'] != 'rdp':
         return
-    curve = POOL[case['curve']]
+    curve = DIP5 if case['curve'] == 'dip5' else POOL[case['curve']]
     pts = np.array([[float(a), float(Fr(inputs.get('y%d' % i, b)) if i in case['pos'] else b)] for i, (a, b) in enumerate(curve)], dtype=float)
     n = len(pts)
     cost = getattr(R.metrics.Metrics, case['metric'])
@@ -144,8 +158,8 @@ def repair(R, case, inputs):
 
 
 LEVEL_TEXT = ('Bounded symbolic model checking. L1: the real rdp.rdp runs over kernel stubs - the cost and the distances of every index range are free solver variables - and z3 '
-              'proves on every path (a) each retained segment with interior points has a cost on the accepting side of t and (b) each retained interior index is a farthest '
-              'interior point of an index range whose cost is on the rejecting side; because ranges the driver never evaluated are unconstrained, accepting an un-costed '
+              'proves on every path (a) each retained segment with interior points has a cost on the accepting side of t and (b) the retained set is a recursive RDP partition: every range containing retained indexes is '
+              'rejected and split at a retained farthest interior point (any farthest point on ties), recursively; because ranges the driver never evaluated are unconstrained, accepting an un-costed '
               'segment or costing/splitting the wrong range yields a counterexample. L0: the same with the real kernels inline on pool-curve slices, plus the metric dispatch of '
               'compute_cost_coef for fully symbolic curves (n <= 4).')
 LEVEL_NOTE = 'n <= 6/7 in L1 (all kernel behaviours), pool-curve slices in L0; exact reals (T1); the spec is relative to the library primitives (checked by C16/C17).'
